@@ -205,6 +205,30 @@ fn run_prop(prop: &str, tier: Tier, seed: u64) -> i32 {
             props::crash::c09(&ctx);
             ctx.finish(tier.pick(100, 2000))
         }
+        "C13" => {
+            let ctx = Ctx::new(
+                "C13",
+                tier,
+                seed,
+                "exploration",
+                "2-3 live instances in one process, drawn from five (data dir, namespace key) slots that pairwise differ in the directory or in the sanitised key, all using the same topic names; generated interleaved histories (appends, batches, consuming reads, peeks, counts, mark clean/dirty, is_clean, in-process close+reopen of one instance while the others live, optional whole-process restart before the final drain) with per-instance consistency mode and fsync schedule; every response is judged against that instance's own FIFO / marker model, an entry known to another instance's model is reported as foreign, and the WAL files under the other instances' directories must not disappear because of an operation on this one. Heavy search: both instances allocate >100 blocks in lock-step (their block ids collide in the process-global trackers); instance 1 consumes everything, instance 0 nothing / 5 entries / peeks only; after 1.7 s (reclaimer) no WAL file of instance 0 may be gone, and after a process restart every instance must deliver exactly its unconsumed entries. Non-trivial (light) = the same topic holds different data in two instances and an instance was reopened or the process restarted; (heavy) = the reclaimer wait was reached.",
+                &["instances live in one child process; payload identity by (length, 64-bit hash), unique across instances for payloads >= 8 bytes"],
+            );
+            props::multi::c13(&ctx);
+            ctx.finish(tier.pick(40, 400))
+        }
+        "C12" => {
+            let ctx = Ctx::new(
+                "C12",
+                tier,
+                seed,
+                "exploration",
+                "generated reclamation histories on the real geometry (10 MiB blocks, 100 blocks per file, FsyncSchedule::Milliseconds(1)): generated (topic, blocks) fills over 1-5 topics allocate the whole first WAL file and move every topic's active block into the second file; each topic then follows a generated plan (full drain plus 0-5 empty polls / partial consumption / peeks only / nothing), followed by generated extra reads and peeks; the case waits 1.7 s (the reclaimer deletes after 1000 one-millisecond ticks), runs a generated second phase of appends and reads, and finally - after a fresh-process restart in 3 of 4 cases, otherwise before and after one - drains every topic against the FIFO model: exactly the unconsumed entries must be delivered, in order (AtLeastOnce: the cursor may move back, never skip). Non-trivial = the first file became fully allocated and a WAL file was deleted, or was eligible, or was kept while entries were unconsumed. Distinct = distinct generated case.",
+                &["the tracker view (H3) and the directory listing only label cases; the verdict comes from the FIFO model", "a deleted file stays readable through existing mappings inside the process, so loss shows after the restart"],
+            );
+            props::reclaim::c12(&ctx);
+            ctx.finish(tier.pick(8, 100))
+        }
         "C05" => {
             let ctx = Ctx::new(
                 "C05",
